@@ -439,6 +439,7 @@ func runC09(cfg Config) {
 		}
 	}
 	c09SameHandle(cfg, rep, rng, monitor)
+	runC09Handle(cfg, rep, m, rng, monitor)
 	c09CLI(cfg, rep, rng)
 	rep.Write(cfg.Out)
 }
